@@ -244,13 +244,16 @@ func dnsScenarioC10(w *dnsWorld) {
 		k := 1 + T.Pick(4, 2, 1)
 		var ops []*dnsOp
 		for i := 0; i < k; i++ {
-			op := &dnsOp{cli: i, idx: len(w.ops), id: uint16(100 + len(w.ops)), viaUDP: T.Chance(1, 4)}
+			op := &dnsOp{cli: i, idx: len(w.ops), id: uint16(100 + len(w.ops)), viaUDP: T.Chance(1, 4), resolver: T.Pick(3, 1)}
 			if cur := w.sortedEntries(); len(cur) > 0 && T.Chance(2, 3) {
 				e := cur[T.Choose(len(cur))]
 				if i == 0 && w.focus != nil {
 					e = w.focus
 				}
 				op.name, op.qtype = e.key.name, e.key.qtype
+				if e.key.scope >= len(w.ups) {
+					op.resolver = e.key.scope - len(w.ups) // revisit the entry under the scope it was cached for
+				}
 			} else {
 				op.name, op.qtype = w.names[T.Choose(len(w.names))], dnsQtypes[T.Pick(4, 3, 1)]
 			}
@@ -264,7 +267,7 @@ func dnsScenarioC10(w *dnsWorld) {
 		pause := map[*dnsOp]time.Duration{}
 		for _, op := range ops {
 			if T.Chance(1, 3) {
-				op2 := &dnsOp{cli: op.cli, idx: len(w.ops), id: uint16(100 + len(w.ops)), name: op.name, qtype: op.qtype, qname: op.qname}
+				op2 := &dnsOp{cli: op.cli, idx: len(w.ops), id: uint16(100 + len(w.ops)), name: op.name, qtype: op.qtype, qname: op.qname, resolver: op.resolver}
 				w.ops = append(w.ops, op2)
 				again[op] = op2
 				pause[op] = []time.Duration{time.Second, 3 * time.Second, 5 * time.Second}[T.Choose(3)]
